@@ -13,7 +13,7 @@ void h_lemma_negotiation(void)
   QXmppOutgoingClient c; QXmppOutgoingClientPrivate d; QSslSocket s; QXmppConfigurationPrivate cp;
   QXmppStreamFeatures f; QXmppStreamFeaturesPrivate fp;
   BindResult br; Sasl2Result s2; NonSaslOptionsResult no; SuccessOrError se; SaslResult sr;
-  c.d = &d; d.socket.m_socket = &s; d.config.d = &cp; f.d = &fp;
+  __CPROVER_assume(QXmppOutgoingClientPrivate_ENUMS_VALID(&d)); c.d = &d; d.q = &c; d.socket.m_socket = &s; d.config.d = &cp; f.d = &fp;
   gh_sent = nondet_uint(); gh_sent_last = nondet_int(); gh_sock_disconnects = nondet_uint(); gh_errors = nondet_uint();
   gh_iq_opened = nondet_uint(); gh_iq_cancel_all = nondet_uint(); gh_carbon_opened = nondet_uint(); gh_csi_opened = nondet_uint();
   gh_ev_connected = nondet_uint(); gh_steps = nondet_uint(); gh_step_pending = nondet_bool(); gh_cont_last = nondet_int();
